@@ -288,6 +288,13 @@ def run(ctx):
 
     check_hidden_state(ctx, "C08-D5 constructions-stateless", [ctx.repo.func(f"{CIR}:Circuit.inverse"), ctx.repo.func(f"{CIR}:Circuit.controlled")], effects_for(ctx), argument_caches=True, receiver_caches=True)
     ctx.floor("C08-D5", 2)
+    # what controlled() and inverse() mean as matrices rests on the one analysed embedding (C01-D5: apply, lifted_matrix, the
+    # numeric and symbolic twins), for symbolic circuits as well
+    from ..common import share_rule
+    from . import c01
+
+    share_rule(ctx, "C01", c01.check_embedding_paths, "C08-D6 embedding-entry")
+    ctx.floor("C08-D6", 6)
     ctx.floor("C08-D1", 4)
     ctx.floor("C08-D2", 5)
     ctx.floor("C08-D3", 14)
